@@ -16,6 +16,17 @@ type ctx struct {
 	ret  func(v string) block // `return v` (v: a one-line term of the function's result type)
 	brk  func() block
 	cont func() block
+	resT string // result type of the def being generated (what ret/brk/cont produce)
+}
+
+func wrapRet(b block) block {
+	if s, ok := one(b); ok {
+		return block{"GoInt.Ctl.ret " + paren(s)}
+	}
+	o := block{"GoInt.Ctl.ret ("}
+	o = append(o, ind(b)...)
+	o[len(o)-1] += ")"
+	return o
 }
 
 func memo(k func() block) func() block {
@@ -349,8 +360,74 @@ func (t *tfunc) mkIf(cond string, swap bool, a, b br) br {
 				}
 				return letLine(tn, tupleType(typs), val, append(rest, k()...))
 			}
-			km := memo(k)
-			return ifBlock(cond, a.gen(c, km, false), b.gen(c, km, false))
+			// both branches can fall through and something in them leaves (return / break / continue):
+			// the branches yield either the joined variables or the value the enclosing def ends with
+			as := unionObjs(a.assigned, b.assigned)
+			var names, typs []string
+			for _, o := range as {
+				n := t.name(o)
+				names = append(names, n)
+				ty, ok := t.vtype[n]
+				if !ok {
+					ty = t.g.leanType(o.Type())
+				}
+				typs = append(typs, ty)
+			}
+			k2 := func() block {
+				for _, n := range names {
+					t.use(n)
+				}
+				return block{"GoInt.Ctl.fall " + paren(tupleOf(names))}
+			}
+			c2 := &ctx{resT: c.resT, ret: func(v string) block { return wrapRet(c.ret(v)) }}
+			if c.brk != nil {
+				c2.brk = func() block { return wrapRet(c.brk()) }
+			}
+			if c.cont != nil {
+				c2.cont = func() block { return wrapRet(c.cont()) }
+			}
+			val := ifBlock(cond, a.gen(c2, k2, true), b.gen(c2, k2, true))
+			tn, sn := t.tmp(), t.tmp()
+			tt := fmt.Sprintf("GoInt.Ctl %s %s", paren(tupleType(typs)), paren(c.resT))
+			t.declare(tn, tt)
+			t.declare(sn, tupleType(typs))
+			var rest block
+			for i, n := range names {
+				t.declare(n, typs[i])
+				rest = append(rest, fmt.Sprintf("let %s : %s := %s", n, typs[i], proj(sn, i, len(names))))
+			}
+			out := letLine(tn, tt, val, block{"match " + tn + " with", "| GoInt.Ctl.ret r" + tn + " => r" + tn, "| GoInt.Ctl.fall " + sn + " =>"})
+			if t.inLoop > 0 {
+				return append(out, ind(append(rest, k()...))...)
+			}
+			// outside loops the continuation becomes a def of its own (`<fn>_k<i>`), so that the lemmas
+			// about the function can be stated and proved piecewise
+			t.nk++
+			kname := fmt.Sprintf("%s_k%d", t.tg.lean, t.nk)
+			t.used = append(t.used, map[string]bool{})
+			t.decl = append(t.decl, map[string]bool{})
+			kb := k()
+			used := t.used[len(t.used)-1]
+			t.used, t.decl = t.used[:len(t.used)-1], t.decl[:len(t.decl)-1]
+			var frees []string
+			for n := range used {
+				if !contains(names, n) {
+					frees = append(frees, n)
+				}
+			}
+			sortNames(frees)
+			sig, args := "", ""
+			for _, n := range frees {
+				sig += fmt.Sprintf(" (%s : %s)", n, t.vtype[n])
+				args += " " + t.use(n)
+			}
+			for i, n := range names {
+				sig += fmt.Sprintf(" (%s : %s)", n, typs[i])
+				args += " " + proj(sn, i, len(names))
+			}
+			def := block{fmt.Sprintf("def %s%s : %s :=", kname, sig, c.resT)}
+			t.aux = append(t.aux, append(def, ind(kb)...))
+			return append(out, "  "+kname+args)
 		},
 	}
 }
@@ -781,6 +858,8 @@ func (t *tfunc) loop(list string, elemType string, bind func(elem string) block,
 	}
 	t.used = append(t.used, map[string]bool{})
 	t.decl = append(t.decl, map[string]bool{})
+	t.inLoop++
+	defer func() { t.inLoop-- }()
 	t.declare(elem, elemType)
 	cur := func() string {
 		for _, n := range sNames {
@@ -789,6 +868,7 @@ func (t *tfunc) loop(list string, elemType string, bind func(elem string) block,
 		return tupleOf(sNames)
 	}
 	lc := &ctx{
+		resT: resT,
 		ret:  func(v string) block { return block{"GoInt.Ctl.ret " + paren(v)} },
 		brk:  func() block { return block{fall(cur())} },
 		cont: func() block { return block{fmt.Sprintf("%s%s %s %s", fname, ph, rest, paren(cur()))} },
@@ -801,24 +881,15 @@ func (t *tfunc) loop(list string, elemType string, bind func(elem string) block,
 	bodyB = append(bodyB, t.stmts(body, lc, lc.cont)...)
 	used, decl := t.used[len(t.used)-1], t.decl[len(t.decl)-1]
 	t.used, t.decl = t.used[:len(t.used)-1], t.decl[:len(t.decl)-1]
+	_ = decl
 	var frees []string
 	for n := range used {
-		if decl[n] && !contains(sNames, n) {
-			continue
-		}
 		if contains(sNames, n) || n == elem {
 			continue
 		}
 		frees = append(frees, n)
 	}
-	sort.Slice(frees, func(i, j int) bool {
-		a1, a2 := nameRank(frees[i])
-		b1, b2 := nameRank(frees[j])
-		if a1 != b1 {
-			return a1 < b1
-		}
-		return a2 < b2
-	})
+	sortNames(frees)
 	var fsig, fargs string
 	for _, n := range frees {
 		ty, ok := t.vtype[n]
@@ -864,6 +935,17 @@ func (t *tfunc) loop(list string, elemType string, bind func(elem string) block,
 	out = append(out, fmt.Sprintf("| GoInt.Ctl.fall %s =>", st))
 	out = append(out, ind(append(unpack, k()...))...)
 	return out
+}
+
+func sortNames(ns []string) {
+	sort.Slice(ns, func(i, j int) bool {
+		a1, a2 := nameRank(ns[i])
+		b1, b2 := nameRank(ns[j])
+		if a1 != b1 {
+			return a1 < b1
+		}
+		return a2 < b2
+	})
 }
 
 func contains(ss []string, s string) bool {
